@@ -132,6 +132,22 @@ Theorem C05_context_written_only_by_integrator :
 Proof. vm_compute. auto. Qed.
 Print Assumptions C05_context_written_only_by_integrator.
 
+(* ... and CONSTRUCTORS do not write it either, except for the documented Require bits: the scratch-state obligations ignore
+   constructor writes (they happen before the first Check), but the context is SHARED, so a checker whose constructor adjusts
+   SizesInfo / GoVersion / a table for its own purposes changes what every other checker measures *)
+Eval vm_compute in
+  (flat_map (fun s => if String.eqb (s_pkg s) "linter" && String.eqb (s_name s) "Context"
+                      then flat_map (fun f => if String.eqb (f_name f) "Require" then [] else
+                                     map (fun w => (f_name f, w)) (filter (fun w => let 'W m _ _ := w in negb (mem m integrator_api)) (f_writes f))) (s_fields s)
+                      else []) state_inventory).
+Theorem C05_context_not_written_by_constructors :
+  forallb (fun s => negb (String.eqb (s_pkg s) "linter" && String.eqb (s_name s) "Context")
+                    || forallb (fun f => String.eqb (f_name f) "Require"
+                                         || forallb (fun w => let 'W m _ _ := w in mem m integrator_api) (f_writes f)) (s_fields s))
+          state_inventory = true.
+Proof. vm_compute. reflexivity. Qed.
+Print Assumptions C05_context_not_written_by_constructors.
+
 Theorem C05_inventory_sane :
   (10 <=? N.of_nat (length mutation_sites))%N = true
   /\ forallb (fun f => file_has_copy f
